@@ -104,6 +104,20 @@ theorem reload_equal_prescription {β : Type} (observe : LensRec ν → β) (env
   rw [fromDict_toDict env p h a hap hi hc hpk] at hq
   cases hq; rfl
 
+/-- Later use of the reloaded lens: the same edit history (`set_radius`, `set_thickness`, pickups, solves,
+`update()` ...) applied to the original and to the reloaded lens leaves the same lens record — in particular a
+pickup or solve keeps addressing the surface it addressed before the round trip, which only shows at the next
+`update()`.  (Congruence again; what it adds to `reload_equal_prescription` is that the quantifier over
+observations includes every observation made *after* further edits.  The harness applies the same later edits
+to the original and to every reloaded lens and compares their rays.) -/
+theorem reload_equal_under_later_edits {β : Type} (observe : LensRec ν → β) (arrays : Bool) (es : List (Edit ν))
+    (env : Env ν) (p q : LensRec ν)
+    (h : Wf env p) (a : SysAp ν) (hap : p.aperture = some a) (hi : ∀ s ∈ p.surfaces, s.isImage = false)
+    (hc : PlanesClean p) (hpk : applyPickups true p.surfaces p.pickups = .ok p.surfaces)
+    (hq : fromDict_code env (toDict_code p) = .ok q) :
+    observe (run arrays q es) = observe (run arrays p es) :=
+  reload_equal_prescription (fun L => observe (run arrays L es)) env p q h a hap hi hc hpk hq
+
 /-! ## where `from_dict` is *not* the inverse of `to_dict` in the tree as it stands -/
 
 /-- a lens with an `ImageSurface` can be written but not rebuilt (`TypeError`) -/
